@@ -58,6 +58,63 @@ theorem expand_pair (nr : ℕ) (a : List ℕ) (x : ℕ) (hx : x ∈ a) (hnr : nr
       · exact ⟨i + 1, by simpa using h1, by simpa using h2⟩
       · exact ⟨i + 2, by simpa using h1, by simpa using h2⟩
 
+/-- position bookkeeping of the pairing loop: when the argsort output has no repeated index, the same flat index can
+only be met at two positions of the expansion if these are the two consecutive copies of a doubled (order ≥ 1) index -/
+theorem expand_same_index (nr : ℕ) (l : List ℕ) (hl : l.Nodup) :
+    ∀ i j x, i < j → (expand nr l)[i]? = some x → (expand nr l)[j]? = some x → j = i + 1 ∧ nr ≤ x := by
+  induction l with
+  | nil => intro i j x _ h; simp [expand] at h
+  | cons z zs ih =>
+    rw [List.nodup_cons] at hl
+    have hmem : ∀ (m y : ℕ), (expand nr zs)[m]? = some y → y ≠ z := by
+      intro m y h hy
+      exact hl.1 ((mem_expand nr zs z).1 (hy ▸ List.mem_of_getElem? h))
+    intro i j x hij hi hj
+    unfold expand at hi hj
+    by_cases hz : z < nr
+    · rw [if_pos hz] at hi hj
+      rcases j with _ | j
+      · omega
+      rcases i with _ | i
+      · simp only [List.getElem?_cons_zero, Option.some.injEq] at hi
+        simp only [List.getElem?_cons_succ] at hj
+        exact absurd hi.symm (hmem j x hj)
+      · simp only [List.getElem?_cons_succ] at hi hj
+        have := ih hl.2 i j x (by omega) hi hj
+        omega
+    · rw [if_neg hz] at hi hj
+      rcases j with _ | j
+      · omega
+      rcases i with _ | i
+      · simp only [List.getElem?_cons_zero, Option.some.injEq] at hi
+        rcases j with _ | j
+        · exact ⟨rfl, by omega⟩
+        · simp only [List.getElem?_cons_succ] at hj
+          exact absurd hi.symm (hmem j x hj)
+      · rcases j with _ | j
+        · omega
+        rcases i with _ | i
+        · simp only [List.getElem?_cons_succ, List.getElem?_cons_zero, Option.some.injEq] at hi hj
+          exact absurd hi.symm (hmem j x hj)
+        · simp only [List.getElem?_cons_succ] at hi hj
+          have := ih hl.2 i j x (by omega) hi hj
+          omega
+
+/-- the two consecutive copies of a doubled index get different azimuthal indices (`2t` and `2t-1` in some order) -/
+theorem oordAt_succ_ne (nr i x : ℕ) (hnr : 0 < nr) (hx : nr ≤ x) : oordAt nr i x ≠ oordAt nr (i + 1) x := by
+  have h1 : 1 ≤ x / nr := (Nat.le_div_iff_mul_le hnr).2 (by omega)
+  unfold oordAt
+  split_ifs <;> omega
+
+/-- `oind` is a prefix of the expansion of the first `nfunc` argsort entries -/
+theorem oind_getElem? (nr nfunc : ℕ) (a : List ℕ) (i x : ℕ) (h : (oind nr nfunc a)[i]? = some x) :
+    (expand nr (a.take nfunc))[i]? = some x := by
+  unfold oind at h
+  rw [List.getElem?_take] at h
+  split at h
+  · exact h
+  · simp at h
+
 
 /-! ### the piston filter `piston_orth` -/
 
@@ -228,6 +285,35 @@ theorem azi_sum (nord npp o : ℕ) (ho : o < nord) (h0 : o ≠ 0) (hres : freq o
 
 end azimuthal
 
+/-! ### change of basis in quadratic forms -/
+
+/-- reordering of a four-fold sum: the two outer indices change places with the two inner ones -/
+theorem sum_comm4 (n m : ℕ) (T : ℕ → ℕ → ℕ → ℕ → ℝ) :
+    ∑ a ∈ range n, ∑ a' ∈ range n, ∑ q ∈ range m, ∑ q' ∈ range m, T a a' q q'
+      = ∑ q ∈ range m, ∑ q' ∈ range m, ∑ a ∈ range n, ∑ a' ∈ range n, T a a' q q' := by
+  rw [sum_congr rfl (fun a _ => sum_comm), sum_comm]
+  apply sum_congr rfl; intro q _
+  rw [sum_congr rfl (fun a _ => sum_congr rfl (fun a' _ => rfl)), sum_congr rfl (fun a _ => sum_comm), sum_comm]
+
+/-- change of basis in a quadratic form: `(P c)ᵀ Z (P c') = cᵀ (Pᵀ Z P) c'` -/
+theorem quad_change_basis (n : ℕ) (P Z : ℕ → ℕ → ℝ) (c c' : ℕ → ℝ) :
+    ∑ a ∈ range n, ∑ a' ∈ range n, (∑ q ∈ range n, c q * P a q) * Z a a' * (∑ q' ∈ range n, c' q' * P a' q')
+      = ∑ q ∈ range n, ∑ q' ∈ range n, c q * (∑ j ∈ range n, (∑ i ∈ range n, P i q * Z i j) * P j q') * c' q' := by
+  have e1 : ∀ a a', (∑ q ∈ range n, c q * P a q) * Z a a' * (∑ q' ∈ range n, c' q' * P a' q')
+      = ∑ q ∈ range n, ∑ q' ∈ range n, c q * c' q' * (P a q * Z a a' * P a' q') := by
+    intro a a'
+    rw [Finset.sum_mul, Finset.sum_mul_sum]
+    exact sum_congr rfl (fun q _ => sum_congr rfl (fun q' _ => by ring))
+  have e2 : ∀ q q', c q * (∑ j ∈ range n, (∑ i ∈ range n, P i q * Z i j) * P j q') * c' q'
+      = ∑ a ∈ range n, ∑ a' ∈ range n, c q * c' q' * (P a q * Z a a' * P a' q') := by
+    intro q q'
+    rw [Finset.mul_sum, Finset.sum_mul, sum_comm]
+    apply sum_congr rfl; intro j _
+    rw [Finset.sum_mul, Finset.mul_sum, Finset.sum_mul]
+    exact sum_congr rfl (fun i _ => by ring)
+  simp only [e1, e2]
+  exact sum_comm4 n n _
+
 /-! ### radial functions from the eigen-decompositions -/
 
 section radial
@@ -345,6 +431,32 @@ theorem kers0_sum (nr : ℕ) (V : ℕ → ℕ → ℕ → ℝ) (k : ℕ) (hk : k
       unfold v1
       simp [hq1, show ¬ (k + 1 = nr) by omega]
   rw [sum_congr rfl this]; simp
+
+theorem v1_low (nr : ℕ) (v0 : ℕ → ℕ → ℝ) (k q : ℕ) (hk : k + 1 < nr) :
+    v1 (K := ℝ) nr v0 k q = if q + 1 < nr then v0 q k else 0 := by
+  unfold v1
+  by_cases hq : q + 1 < nr
+  · simp [hk, hq]
+  · simp [hq, show ¬ (k + 1 = nr) by omega]
+
+/-- the order-0 radial functions in terms of the filtered eigenvectors: `u_k = P[:, 0:nr-1] · v0[:, k]`, and their
+quadratic form in any matrix `Z` is the quadratic form of the eigenvectors in the filtered block `(Pᵀ Z P)[0:nr-1, 0:nr-1]` -/
+theorem vs0_quad (nr : ℕ) (Z v0 : ℕ → ℕ → ℝ) (k k' : ℕ) (hk : k + 1 < nr) (hk' : k' + 1 < nr) :
+    ∑ a ∈ range nr, ∑ a' ∈ range nr, vs0 nr v0 k a * Z a a' * vs0 nr v0 k' a'
+      = ∑ q ∈ range (nr - 1), ∑ q' ∈ range (nr - 1), v0 q k * b1 nr Z q q' * v0 q' k' := by
+  real_unfold [vs0, b1]
+  rw [quad_change_basis nr (fun a q => pistonOrth nr a q) Z (v1 nr v0 k) (v1 nr v0 k')]
+  obtain ⟨n, rfl⟩ : ∃ n, nr = n + 1 := ⟨nr - 1, by omega⟩
+  simp only [Nat.add_sub_cancel]
+  have hz : v1 (K := ℝ) (n + 1) v0 k n = 0 := by rw [v1_low _ _ _ _ hk]; simp
+  have hz' : v1 (K := ℝ) (n + 1) v0 k' n = 0 := by rw [v1_low _ _ _ _ hk']; simp
+  rw [Finset.sum_range_succ, hz]
+  simp only [zero_mul, sum_const_zero, add_zero]
+  apply sum_congr rfl; intro q hq
+  rw [Finset.sum_range_succ, hz', mul_zero, add_zero]
+  apply sum_congr rfl; intro q' hq'
+  rw [v1_low _ _ _ _ hk, v1_low _ _ _ _ hk', if_pos (by have := mem_range.1 hq; omega),
+    if_pos (by have := mem_range.1 hq'; omega)]
 
 end radial
 
